@@ -164,8 +164,28 @@ func (p *c19Prop) runConnVia(c *c19Case) interface{} {
 	}
 }
 
+// Run: the cases are schedules in wall-clock time. An attempt in which the harness itself missed its own schedule by
+// more than 150 ms (the whole process was held up: the broker's timers ran late with it, and whether a packet or a
+// deadline came first is then anybody's guess) says nothing about the broker: the case is run again, twice at most
 func (p *c19Prop) Run(ci interface{}) interface{} {
 	c := ci.(*c19Case)
+	var o *c19Obs
+	for attempt := 0; attempt < 3; attempt++ {
+		o = p.runOnce(c).(*c19Obs)
+		late := false
+		for j, at := range o.Sent {
+			if j < len(c.Sends) && at-c.Sends[j] > 150 {
+				late = true
+			}
+		}
+		if !late {
+			break
+		}
+	}
+	return o
+}
+
+func (p *c19Prop) runOnce(c *c19Case) interface{} {
 	obs := &c19Obs{}
 	if c.Kind == "conn" && c.Via != "" {
 		return p.runConnVia(c)
